@@ -3,7 +3,7 @@ import ApdVerif.Lemmas.Digits
 /-!
 # Helper lemmas for C10 (QuoInteger / Rem)
 -/
-namespace Apd.Props
+namespace Apd.C10L
 open Apd Apd.Oracle Cond
 
 /-- `upscale` aligns the coefficients at the smaller exponent whenever the exponent gap is
@@ -177,4 +177,4 @@ theorem ctxRound_inexact (c : Ctx) (hc : c.WF) (d : Dec) (hf : d.form = .finite)
     have := setExponent_inexact c hc d hf hnd {} rfl [d.exp, 0] hns
     rw [hs2] at this
     exact this
-end Apd.Props
+end Apd.C10L
